@@ -451,6 +451,22 @@ def matchpy_bridge(tier):
         if not ok:
             b.fail(Failure("matchpy-bridge", f"what=replace subject={subj!r}", dict(kind="mp-repl", subject=trees.src(subj)), expected="a*c replaced by 6, other factors kept with multiplicity",
                            actual=outcome.describe(r)[:200], functions=["ToFromReplacement", "replace_all"]))
+    # a rule whose replacement is a sum, applied below every kind of parent: g(w_) -> w_ + 1; the result is the subject with every g(t) replaced by t + 1
+    g_ = p.Variable("g")
+    f_ = p.Variable("f")
+    rule2 = outcome.run(lambda: m.make_replacement_rule(p.Call(g_, (p.DotWildcard("w_"),)), lambda w_: w_ + 1))
+    ga = p.Call(g_, (a,))
+    cases2 = [(ga, p.Sum((a, 1))), (p.Sum((ga, b_)), p.Sum((a, 1, b_))), (p.Power(ga, 2), p.Power(p.Sum((a, 1)), 2)), (p.Product((ga, b_)), p.Product((p.Sum((a, 1)), b_))),
+              (p.Quotient(b_, ga), p.Quotient(b_, p.Sum((a, 1)))), (p.Call(f_, (ga,)), p.Call(f_, (p.Sum((a, 1)),))), (p.Call(f_, (ga, b_)), p.Call(f_, (p.Sum((a, 1)), b_))),
+              (p.Call(f_, (b_, p.Product((2, ga)))), p.Call(f_, (b_, p.Product((2, p.Sum((a, 1))))))), (p.Subscript(x, (ga,)), p.Subscript(x, (p.Sum((a, 1)),)))]
+    for subj, want in cases2:
+        r = outcome.run(lambda: m.replace_all(subj, [rule2[1]])) if rule2[0] == "val" else rule2
+        b.case(("replace-sum", repr(subj)), nontrivial=True, sample=repr(subj))
+        ok = r[0] == "val" and ac_norm(neutral_norm(r[1])) == ac_norm(neutral_norm(want))
+        if not ok:
+            in_args = isinstance(subj, (p.Call, p.Subscript))
+            b.fail(Failure("matchpy-bridge", f"{'cause=replacement-spliced-into-argument-list ' if in_args else ''}what=replace-by-sum subject={subj!r}", dict(kind="mp-repl-sum", subject=trees.src(subj)),
+                           expected=repr(want)[:150], actual=outcome.describe(r)[:200], functions=["replace_all", "ToFromReplacement", "TupleOp"]))
     return b
 
 
